@@ -544,6 +544,60 @@ def rule_new_records_land_inside_the_count(eng, rep, rule="C17-9.a-record-added-
     rep.require_count(rule, "statements that make a per-point array one row longer", n, 3)
 
 
+def rule_swaps_repoint_the_incumbent(eng, rep, rule="C17-5b.a-swap-of-two-records-re-points-the-incumbent-index-both-ways"):
+    """A Model method that exchanges two records (`A[[i, j]] = A[[j, i]]` on the per-point arrays) moves the incumbent's record when kopt is i or j: the stores to kopt
+    must map i -> j and j -> i, each under the test `kopt == <the other>` (a missing or one-sided re-pointing leaves kopt on the record that moved away)."""
+    model = eng.prog.cls("Model")
+    rec = set(record_fields(eng))
+    n = 0
+    for m in sorted(model.methods.values(), key=lambda f: f.qualname):
+        sn = m.posparams[0] if m.posparams else None
+        pairs = set()
+        for node in eng.prog.own_nodes(m):
+            if isinstance(node, ast.Assign) and len(node.targets) == 1 and isinstance(node.targets[0], ast.Subscript) and isinstance(node.value, ast.Subscript):
+                t, v = node.targets[0], node.value
+                if _written_field(t, sn) in rec and ekey(t.value) == ekey(v.value):
+                    ti = t.slice.elts[0] if isinstance(t.slice, ast.Tuple) else t.slice
+                    vi = v.slice.elts[0] if isinstance(v.slice, ast.Tuple) else v.slice
+                    mcfg = eng.cfg(m)
+
+                    def _lst(e):
+                        if isinstance(e, ast.Name):         # index list through a temporary: dest = [k1, k2]
+                            dd = [mcfg.ast_of(x) for x in mcfg.defs_reaching(node, e.id)]
+                            if len(dd) == 1 and isinstance(dd[0], ast.Assign) and isinstance(dd[0].value, ast.List):
+                                return dd[0].value
+                        return e
+                    ti, vi = _lst(ti), _lst(vi)
+                    if isinstance(ti, ast.List) and isinstance(vi, ast.List) and len(ti.elts) == 2 and len(vi.elts) == 2 \
+                            and ekey(ti.elts[0]) == ekey(vi.elts[1]) and ekey(ti.elts[1]) == ekey(vi.elts[0]):
+                        pairs.add((ekey(ti.elts[0]), ekey(ti.elts[1])))
+        if not pairs:
+            continue
+        cfg = eng.cfg(m)
+        for (a, b) in sorted(pairs):
+            n += 1
+            site = eng.where(m)
+            maps = set()
+            for k, d in cfg.g.nodes(data=True):
+                st = d["ast"]
+                if d["kind"] == "stmt" and isinstance(st, ast.Assign) and len(st.targets) == 1 and isinstance(st.targets[0], ast.Attribute) and st.targets[0].attr == "kopt":
+                    for (_bn, at) in guards_of(cfg, k):
+                        if at.op == "eq":
+                            l, r = ekey(at.lhs), ekey(at.rhs)
+                            other = r if l.endswith(".kopt") else (l if r.endswith(".kopt") else None)
+                            if other is not None:
+                                maps.add((other, ekey(st.value)))
+            need = {(a, b), (b, a)}
+            if need <= maps:
+                rep.ok(rule, site, "records %s and %s are exchanged and kopt is re-pointed %s -> %s and %s -> %s" % (a, b, a, b, b, a))
+            else:
+                miss = sorted(need - maps)
+                rep.bad(rule, site, "%s|incumbent-not-re-pointed|%s" % (m.fid, ",".join("%s->%s" % x for x in miss)),
+                        "%s exchanges the records %s and %s but does not re-point kopt for %s: after the swap kopt designates the record that moved away"
+                        % (m.qualname, a, b, ", ".join("kopt == %s" % x[0] for x in miss)))
+    rep.require_count(rule, "record exchanges in Model methods", n, 1)
+
+
 def run(eng, rep):
     rep.explain("C17 (structural clauses): the per-point record is derived from change_point (fields written at index k); every Model method that relocates, appends, "
                 "replaces or re-samples records must touch all record arrays with one index expression (T4 coherence); sample counts are set to 1 exactly on "
@@ -558,6 +612,7 @@ def run(eng, rep):
     rep.guarded(rule_sample_counts, eng, rep)
     rep.guarded(rule_selection, eng, rep, "C17-4.incumbent-and-final-selection-tables", {"ORDER", "NAN_CAND", "NAN_HOLDER", "NONE_HOLDER"}, "C17")
     rep.guarded(rule_kopt_valid, eng, rep)
+    rep.guarded(rule_swaps_repoint_the_incumbent, eng, rep)
     rep.guarded(rule_new_records_land_inside_the_count, eng, rep)
     rep.guarded(rule_reselection_guard, eng, rep)
     rep.guarded(rule_running_mean, eng, rep)
